@@ -236,7 +236,7 @@ func famPipeline(dir string, seed int64, tier string) {
 		}
 		directed = append(directed, v)
 	}
-	nShallow := 10
+	nShallow := 9 // (the input with non-ASCII field names goes with the deep ones: Go oracles only - the model knows ASCII identifiers)
 	for di, v := range directed {
 		ts, err := marshalTokens(v, nil)
 		if err != nil {
